@@ -3,15 +3,18 @@ import CJ.Drv.HalfPipe
 import CJ.Drv.RelayClock
 import CJ.Drv.StatsEpoch
 import CJ.Drv.ProxyHeader
+import CJ.Drv.ProxyRelay
+import CJ.Drv.ByteCounters
 /-! Driver for C05: the relay model (`halfPipe`, `Proxy`), the relay's deadlines on a virtual clock, and the
 proxy statistics across epochs. -/
 open CJ.Drv
 
 def main : IO Unit := runDriver fun
   | "halfpipe" :: args => HalfPipe.handle args
-  | "proxy" :: args => HalfPipe.handleProxy args
+  | "proxy" :: args => ProxyRelay.handle args
   | "relayclock" :: args => RelayClock.handle args
   | "statsepoch" :: args => StatsEpoch.handle args
   | "sessions" :: args => StatsEpoch.handleSessions args
+  | "bytectr" :: args => ByteCounters.handle args
   | "proxyhdr" :: args => ProxyHeader.handle args
   | _ => none
